@@ -19,9 +19,20 @@ func (r *FnRun) execCall(st *State, x *ssa.Call) *State {
 	nst := r.execCallCommon(st, &x.Call, x, x.Pos())
 	if r.depth == 0 && nst != nil {
 		r.callOrdinal++
+		cname := calleeShort(&x.Call)
+		if r.calleeCount == nil {
+			r.calleeCount = map[string]int{}
+		}
+		r.calleeCount[cname]++
 		if r.c != nil {
 			for _, ma := range r.c.Asserts {
-				if ma.N != r.callOrdinal || !r.root.wantClause(ma.Cl) {
+				if ma.Callee == "" && ma.N != r.callOrdinal {
+					continue
+				}
+				if ma.Callee != "" && (ma.Callee != cname || ma.N != r.calleeCount[cname]) {
+					continue
+				}
+				if !r.root.wantClause(ma.Cl) {
 					continue
 				}
 				// the DebugRefs naming the call's result follow the call instruction: apply them first
@@ -43,7 +54,11 @@ func (r *FnRun) execCall(st *State, x *ssa.Call) *State {
 				env := r.rootEnvFor(nst)
 				env.preferNames = true // source variables denote their current values
 				g := env.EvalBool(ma.Cl.E)
-				r.oblige(nst, "assert", fmt.Sprintf("call%d", ma.N), g, x.Pos(), "intermediate assertion: "+ma.Cl.Text, ma.Cl.Tags)
+				det := fmt.Sprintf("call%d", ma.N)
+				if ma.Callee != "" {
+					det = fmt.Sprintf("%s.%d", ma.Callee, ma.N)
+				}
+				r.oblige(nst, "assert", det, g, x.Pos(), "intermediate assertion: "+ma.Cl.Text, ma.Cl.Tags)
 				r.assume(nst, g)
 			}
 		}
@@ -656,6 +671,9 @@ func (r *FnRun) emitEvent(st *State, env *Env, e *Expr) {
 		}
 	}
 	n := r.e.ghost(st, "trace.len", BV64)
+	// ghost assumption: an activation records fewer than 2^62 events (its trace length never wraps)
+	r.assume(st, tb.And(tb.SLe(tb.BVI(64, 0), n), tb.SLt(n, tb.BVU(64, 1<<62))))
+	r.root.notes["ghost traces: fewer than 2^62 events per activation (trace length does not wrap)"] = true
 	set := func(name string, v *Term) {
 		arrT := r.e.ghost(st, "trace."+name, WordAr)
 		st.Ghost["trace."+name] = tb.Store(arrT, n, v)
@@ -986,6 +1004,20 @@ func (r *FnRun) errorfWraps(st *State, cc *ssa.CallCommon, res Val) {
 	if !ok {
 		return
 	}
+	// completeness for the sentinel io.EOF (the only errors.Is target in this code base): the result wraps io.EOF
+	// only through a %w argument that does
+	var wrapped []IfaceV
+	defer func() {
+		if g := r.e.findGlobal(nil, "io", "EOF"); g != nil {
+			eof := r.e.globalVal(g, nil, g.Type().(*types.Pointer).Elem()).(IfaceV)
+			tb := r.tb()
+			var alts []*Term
+			for _, w := range wrapped {
+				alts = append(alts, r.e.wraps(w, eof))
+			}
+			r.assume(st, tb.Implies(r.e.wraps(rv, eof), tb.Or(alts...)))
+		}
+	}()
 	argi := 0
 	for i := 0; i < len(format); i++ {
 		if format[i] != '%' {
@@ -1005,8 +1037,27 @@ func (r *FnRun) errorfWraps(st *State, cc *ssa.CallCommon, res Val) {
 			addr := r.tb().Add(ps.Ptr, r.tb().BVI(64, int64(16*argi)))
 			if el, ok := r.objLoad(st, addr, ps.Elem).(IfaceV); ok {
 				r.assume(st, r.e.wraps(rv, el))
+				wrapped = append(wrapped, el)
 			}
 		}
 		argi++
 	}
+}
+
+// calleeShort: a short name for the callee of a call (method or function name; "invoke:M" for interface calls; "cb" style
+// parameter names for function values).
+func calleeShort(cc *ssa.CallCommon) string {
+	if cc.IsInvoke() {
+		return cc.Method.Name()
+	}
+	if b, ok := cc.Value.(*ssa.Builtin); ok {
+		return b.Name()
+	}
+	if f := cc.StaticCallee(); f != nil {
+		return f.Name()
+	}
+	if p, ok := cc.Value.(*ssa.Parameter); ok {
+		return p.Name()
+	}
+	return "dynamic"
 }
